@@ -328,6 +328,45 @@ func VerifC16() {
 			"second entry: the block error carries only what its own blocking slot gave (nothing of an earlier entry on the recycled context)")
 	}
 	rt.Assert(same2, "second entry (recycled context): every slot runs in order, statistic slots are told passed and completed (or blocked) exactly once")
+	// ---- two overlapping entries after all that: each has a pooled context of its own, so each is told of its own
+	// passage and completion (a context handed back twice by an earlier Exit would be shared by the two) ----
+	for _, s := range cs {
+		s.mode, s.inplace = 0, 0
+	}
+	n3 := len(log.calls)
+	e3, _ := Entry("R16c", WithSlotChain(sc))
+	e4, _ := Entry("R16d", WithSlotChain(sc))
+	if e3 == nil || e4 == nil {
+		rt.Assert(false, "overlapping entries: both pass when no slot blocks")
+		return
+	}
+	e3.Exit()
+	e4.Exit()
+	var want3 []int
+	for k := 0; k < 2; k++ {
+		for _, i := range verifStableOrder(po) {
+			want3 = append(want3, 100+i)
+		}
+		for _, i := range verifStableOrder(co) {
+			want3 = append(want3, 200+i)
+		}
+		for _, i := range verifStableOrder(so) {
+			want3 = append(want3, 300+i)
+		}
+	}
+	for k := 0; k < 2; k++ {
+		for _, i := range verifStableOrder(so) {
+			want3 = append(want3, 500+i)
+		}
+	}
+	same3 := len(log.calls)-n3 == len(want3)
+	if same3 {
+		for i := range want3 {
+			same3 = same3 && log.calls[n3+i] == want3[i]
+		}
+	}
+	rt.Reach("c16.overlap")
+	rt.Assert(same3, "two overlapping entries after an earlier exit: every slot runs for each, statistic slots are told of each passage and each completion once")
 	if blk != nil && blocker >= 0 {
 		rt.Reach("c16.blockerror-stable")
 		rt.Assert(blk.BlockMsg() == verifMsgs[blocker] && blk.BlockType() == base.BlockTypeFlow+base.BlockType(blocker), "the block error handed to the caller is unchanged after other entries ran")
